@@ -243,6 +243,33 @@ def keys_obs(keys, names):
     return out
 
 
+OOB_KINDS = ['sc_both', 'sc_one_i', 'sc_one_r', 'sc_wrong', 'legacy', 'legacy_mismatch']
+
+
+def make_oob(kind):
+    """OOB configurations after tests/self_test.py (test_self_smp_oob_sc / _legacy)."""
+    from bumble.pairing import PairingConfig
+    from bumble.smp import OobContext, OobLegacyContext
+    if kind is None:
+        return {'i': None, 'r': None}
+    O = PairingConfig.OobConfig
+    ci, cr = OobContext(), OobContext()
+    if kind == 'sc_both':
+        return {'i': O(ci, cr.share(), None), 'r': O(cr, ci.share(), None)}
+    if kind == 'sc_one_i':      # only the initiator has the peer's data
+        return {'i': O(ci, cr.share(), None), 'r': O(cr, None, None)}
+    if kind == 'sc_one_r':
+        return {'i': O(ci, None, None), 'r': O(cr, ci.share(), None)}
+    if kind == 'sc_wrong':      # the responder holds data that is not the initiator's
+        return {'i': O(ci, cr.share(), None), 'r': O(cr, cr.share(), None)}
+    if kind == 'legacy':
+        lc = OobLegacyContext()
+        return {'i': O(ci, None, lc), 'r': O(cr, None, lc)}
+    if kind == 'legacy_mismatch':
+        return {'i': O(ci, None, OobLegacyContext()), 'r': O(cr, None, OobLegacyContext())}
+    raise ValueError(kind)
+
+
 async def run_pairing_async(case):
     """One real pairing + reconnections.  case: {'i': cfg, 'r': cfg, 'central': 0|1, 'fault':..}
     cfg: {'io','sc','mitm','bonding','ikd','rkd','delay'}.  Device `central` is the LE central and
@@ -276,11 +303,13 @@ async def run_pairing_async(case):
                 super().send_command(command)
         return S
 
+    oob_cfg = make_oob(case.get('oob'))
     for side in ('i', 'r'):
         cfg = case[side]
         delegate = make_delegate(user, side, cfg)
         pc = PairingConfig(sc=bool(cfg['sc']), mitm=bool(cfg['mitm']), bonding=bool(cfg['bonding']),
-                           delegate=delegate, identity_address_type=PairingConfig.AddressType.RANDOM)
+                           delegate=delegate, identity_address_type=PairingConfig.AddressType.RANDOM,
+                           oob=oob_cfg[side])
         dev[side].pairing_config_factory = lambda connection, pc=pc: pc
         dev[side].smp_session_proxy = proxy_for(side)
 
@@ -406,10 +435,89 @@ async def run_pairing_async(case):
 
 
 def run_pairing(case):
+    return _run_loop(run_pairing_async(case))
+
+
+def cfg(io=3, sc=1, mitm=1, bonding=1, ikd=3, rkd=3, delay=0):
+    return {'io': io, 'sc': sc, 'mitm': mitm, 'bonding': bonding, 'ikd': ikd, 'rkd': rkd, 'delay': delay}
+
+
+# ----------------------------------------------------------------------------- cross transport (CTKD)
+async def run_ctkd_async(case):
+    """CTKD over a BR/EDR connection between two real devices.  The virtual link has no classic
+    encryption, so (as tests/self_test.py::test_self_smp_over_classic does) the connection is
+    flagged encrypted by hand; the link key is a real key-store entry written the way
+    Device.on_link_key writes it.  case: {'kd', 'key_type'}."""
+    from bumble import hci
+    from bumble.core import PhysicalTransport
+    from bumble.keys import PairingKeys
+    from bumble.pairing import PairingConfig, PairingDelegate
+
+    rig = Rig()
+    for d in rig.devs:
+        d.classic_enabled = True
+    await rig.power_on()
+    obs = {}
+    try:
+        await bounded(asyncio.gather(
+            rig.devs[0].connect(rig.devs[1].public_address, transport=PhysicalTransport.BR_EDR),
+            rig.devs[1].accept(rig.devs[0].public_address)), 4000)
+    except Exception:
+        obs['setup'] = 'failed'
+        return obs
+    if len(rig.conns) != 2:
+        obs['setup'] = 'failed'
+        return obs
+    key_type = case['key_type']
+    authenticated = key_type in (hci.LinkKeyType.AUTHENTICATED_COMBINATION_KEY_GENERATED_FROM_P_192,
+                                 hci.LinkKeyType.AUTHENTICATED_COMBINATION_KEY_GENERATED_FROM_P_256)
+    link_key = bytes(range(0x20, 0x30))
+    events = {0: [], 1: []}
+    for i in range(2):
+        await rig.devs[i].update_keys(str(rig.conns[i].peer_address), PairingKeys(
+            link_key=PairingKeys.Key(value=link_key, authenticated=authenticated), link_key_type=key_type))
+        rig.conns[i].encryption = 1
+        delegate = PairingDelegate(PairingDelegate.IoCapability.NO_OUTPUT_NO_INPUT, case['kd'], case['kd'])
+        pc = PairingConfig(sc=True, mitm=bool(case.get('mitm', 0)), bonding=True, delegate=delegate)
+        rig.devs[i].pairing_config_factory = lambda connection, pc=pc: pc
+        rig.conns[i].on('pairing', lambda keys, i=i: events[i].append(('pairing', keys)))
+        rig.conns[i].on('pairing_failure', lambda reason, i=i: events[i].append(('failure', int(reason))))
+    task = asyncio.ensure_future(rig.conns[0].pair())
+    for _ in range(STEP_BUDGET):
+        await asyncio.sleep(0)
+        if task.done() and events[0] and events[1]:
+            break
+    if not task.done():
+        task.cancel()
+        try:
+            await task
+        except BaseException:
+            pass
+    await rig.settle()
+    obs['setup'] = 'ok'
+    obs['link_key_authenticated'] = bool(authenticated)
+    for i, side in ((0, 'i'), (1, 'r')):
+        obs['events_' + side] = [e[0] if e[0] == 'pairing' else ['failure', e[1]] for e in events[i]]
+        store = await rig.devs[i].keystore.get_all()
+        flags = []
+        for _, k in store:
+            for slot in ('ltk', 'ltk_central', 'ltk_peripheral', 'irk', 'csrk', 'link_key'):
+                key = getattr(k, slot)
+                if key is not None:
+                    flags.append([slot, bool(key.authenticated)])
+        obs['store_' + side] = sorted(flags)
+    return obs
+
+
+def run_ctkd(case):
+    return _run_loop(run_ctkd_async(case))
+
+
+def _run_loop(coro):
     loop = asyncio.new_event_loop()
     try:
         asyncio.set_event_loop(loop)
-        return loop.run_until_complete(run_pairing_async(case))
+        return loop.run_until_complete(coro)
     finally:
         try:
             pending = [t for t in asyncio.all_tasks(loop) if not t.done()]
@@ -422,5 +530,654 @@ def run_pairing(case):
             loop.close()
 
 
-def cfg(io=3, sc=1, mitm=1, bonding=1, ikd=3, rkd=3, delay=0):
-    return {'io': io, 'sc': sc, 'mitm': mitm, 'bonding': bonding, 'ikd': ikd, 'rkd': rkd, 'delay': delay}
+# ----------------------------------------------------------------------------- decide_pairing_method, exhaustively
+async def decide_impl_async():
+    """Session.decide_pairing_method on real Session objects (real LE and BR/EDR connections)
+    over its whole domain: transport x self.mitm x self.sc x is_initiator x previous
+    passkey_display x auth_req (6 bits) x io x io (0..5: 5 is outside the table)."""
+    from bumble import smp
+    from bumble.core import PhysicalTransport
+    from bumble.pairing import PairingConfig
+
+    le = Rig()
+    await le.power_on()
+    if not await le.connect(0):
+        raise RuntimeError('no LE connection for the decide_pairing_method correspondence')
+    cl = Rig()
+    for d in cl.devs:
+        d.classic_enabled = True
+    await cl.power_on()
+    await bounded(asyncio.gather(
+        cl.devs[0].connect(cl.devs[1].public_address, transport=PhysicalTransport.BR_EDR),
+        cl.devs[1].accept(cl.devs[0].public_address)), 4000)
+    if len(cl.conns) != 2 or cl.conns[0].transport != PhysicalTransport.BR_EDR:
+        raise RuntimeError('no BR/EDR connection for the decide_pairing_method correspondence')
+    out = {}
+    for bredr in (False, True):
+        rig = cl if bredr else le
+        for mitm in (False, True):
+            for sc in (False, True):
+                for initiator in (False, True):
+                    s = smp.Session(rig.devs[0].smp_manager, rig.conns[0],
+                                    PairingConfig(sc=sc, mitm=mitm, bonding=True), initiator)
+                    for prev in (False, True):
+                        res = []
+                        for auth in range(64):
+                            for i in range(6):
+                                for r in range(6):
+                                    s.pairing_method = smp.PairingMethod.JUST_WORKS
+                                    s.passkey_display = prev
+                                    try:
+                                        s.decide_pairing_method(auth, i, r)
+                                        res.append(2 * int(s.pairing_method) + int(bool(s.passkey_display)))
+                                    except KeyError:
+                                        res.append(-1)
+                        out[(bredr, mitm, sc, initiator, prev)] = res
+    return out
+
+
+def decide_correspondence(ctx):
+    """Every entry of the domain is compared inside Coq (Model.Pairing.decide_check): the
+    implementation's results are passed grouped by identical 36-entry rows."""
+    from lib.verif import coq_list, coq_z
+    impl = _run_loop(decide_impl_async())
+    keys = sorted(impl)
+    b = lambda x: 'true' if x else 'false'
+    exprs = []
+    for k in keys:
+        rows = {}
+        for auth in range(64):
+            rows.setdefault(tuple(impl[k][auth * 36:(auth + 1) * 36]), []).append(auth)
+        assert sorted(a for v in rows.values() for a in v) == list(range(64))
+        groups = '[' + '; '.join(f'({coq_list(list(row), coq_z)}, {coq_list(auths, coq_z)})'
+                                 for row, auths in sorted(rows.items())) + ']'
+        exprs.append(f'decide_check {b(k[0])} {b(k[1])} {b(k[2])} {b(k[3])} {b(k[4])} {groups}')
+    model = ctx.coq_eval(['Model.Pairing'], exprs)
+    n = 0
+    for k, m in zip(keys, model):
+        got = impl[k]
+        ctx.count('decide.calls', len(got))
+        n += len(got)
+        for auth, idx in list(m)[:1]:
+            i, r = divmod(idx, 6)
+            case = {'bredr': k[0], 'mitm': k[1], 'sc': k[2], 'initiator': k[3], 'prev_display': k[4],
+                    'auth_req': auth, 'init_io': i, 'resp_io': r}
+            mv = ctx.coq_eval(['Model.Pairing'], [f'decide_obs (decide {b(k[0])} {b(k[1])} {b(k[2])} {b(k[3])} {b(k[4])} '
+                                                  f'{auth} {i} {r})'])[0]
+            ctx.disagree('decide_pairing_method (2*method+display, -1 KeyError)', case, mv, got[auth * 36 + idx])
+        ctx.case(('decide', k), True, {'kind': 'decide', 'domain': list(k), 'results': len(got)} if k == keys[5] else None)
+    ctx.extra['decide_domain_exhaustive'] = n
+    return impl
+
+
+# ----------------------------------------------------------------------------- model side of a pairing case
+def coq_bool(x):
+    return 'true' if x else 'false'
+
+
+def coq_opt_z(x):
+    return 'None' if x is None else f'(Some {int(x)})'
+
+
+def case_typed(case, side):
+    fault = case.get('fault')
+    fs = case.get('fault_side', 'r')
+    if fault == 'passkey_none' and side == fs:
+        return None
+    n = case.get('passkey', 123456)
+    if fault == 'wrong_passkey' and side == fs:
+        n = (n + case.get('passkey_delta', 1)) % 1000000
+    return n
+
+
+def model_expr(case):
+    def config(c, oob):
+        return (f"(mkConfig {c['io']} {coq_bool(c['sc'])} {coq_bool(c['mitm'])} {coq_bool(c['bonding'])} "
+                f"{c['ikd']} {c['rkd']} {coq_bool(oob)})")
+    fault = case.get('fault')
+    ci, cr = case['i'], case['r']
+    if fault == 'kd_superset':
+        answer = f"(Some ({ci['ikd'] | cr['ikd'] | 1}, {ci['rkd'] | cr['rkd'] | 2}))"
+    else:
+        answer = 'None'
+    env = ('(mkEnv ' + ' '.join([
+        coq_bool(fault != 'reject'), answer,
+        coq_bool(fault != 'confirm_no_i'), coq_bool(fault != 'confirm_no_r'),
+        coq_bool(fault != 'compare_no_i'), coq_bool(fault != 'compare_no_r'),
+        str(case.get('passkey', 123456)), coq_opt_z(case_typed(case, 'i')), coq_opt_z(case_typed(case, 'r')),
+        coq_bool(fault == 'bad_confirm_i'), coq_bool(fault == 'bad_confirm_r'),
+        coq_bool(fault == 'bad_dhkey_i'), coq_bool(fault == 'bad_dhkey_r'), 'false']) + ')')
+    return f'run_obs {config(ci, False)} {config(cr, False)} {env}'
+
+
+NAME_CODE = {'ltk_i': 1, 'ltk_r': 2, 'ltk_shared': 3, 'stk_i': 4, 'stk_r': 4}
+
+
+def name_code(n):
+    if n is None:
+        return -1
+    return NAME_CODE.get(n, 0)
+
+
+def impl_view(case, obs):
+    """The implementation's observables in the shape of Model.Pairing.run_obs."""
+    def outcome(side):
+        ev = obs['events_' + side]
+        if not ev:
+            return [2, 0]
+        if ev[0] == 'pairing':
+            return [0, 0]
+        return [1, ev[0][1]]
+
+    def keys(side):
+        st = obs['store_' + side]
+        if not st:
+            return []
+        k = st[0][1]
+
+        def slot(name):
+            return [name_code(k[name][0]), int(k[name][1])] if name in k else []
+
+        def flag(name):
+            return [int(k[name][0])] if name in k else []
+        return [slot('ltk'), slot('ltk_central'), slot('ltk_peripheral'), flag('irk'), flag('csrk'), flag('link_key')]
+
+    calls_code = {'accept': 0, 'confirm': 1, 'compare': 2, 'input': 3, 'display': 4}
+
+    def session(side):
+        s = obs.get('session_' + side)
+        if s is None:
+            return []
+        return [s['method'], int(s['sc']), int(s['bonding']), int(s['ct2']), s['ikd'], s['rkd'], int(s['passkey_display'])]
+
+    def reconnect(label):
+        r = obs['reconnect'].get(label, {})
+        c = name_code(r.get('central_key')) if r.get('central_key') is not None else -1
+        p = name_code(r.get('peripheral_key')) if c != -1 else None
+        return [c, p]
+    link = obs['link_keys'][0] if obs['link_keys'] else None
+    return {
+        'outcome': [outcome('i'), outcome('r')],
+        'keys': [keys('i'), keys('r')],
+        'calls': [[calls_code[c] for c in obs['calls_i']], [calls_code[c] for c in obs['calls_r']]],
+        'sessions': [session('i'), session('r')],
+        'link': [name_code(link[0]), name_code(link[1]), int(link[0] == link[1] and link[0] is not None)] if link else [],
+        'reconnect': [reconnect('same'), reconnect('swapped')],
+    }
+
+
+def model_view(m):
+    # Coq prints left-nested pairs flat: ((a, b), c) is shown as (a, b, c)
+    modelled, sides, (sess_i, sess_r), link, (same, swapped) = m
+    si, sr = sides[0:4], sides[4]
+
+    def side(s):
+        kind, reason, keys, calls = s
+        return [kind, reason], [list(k) for k in keys], list(calls)
+    oi, ki, ci = side(si)
+    orr, kr, cr = side(sr)
+
+    def rec(x):
+        x = list(x)
+        if not x:
+            return [-1, None]
+        return [x[0], x[1] if x[0] != -1 else None]
+    return bool(modelled), {
+        'outcome': [oi, orr], 'keys': [ki, kr], 'calls': [ci, cr],
+        'sessions': [list(sess_i), list(sess_r)], 'link': list(link),
+        'reconnect': [rec(same), rec(swapped)],
+    }
+
+
+def compare_model(case, mview, iview):
+    """Where model and implementation differ (None when they agree)."""
+    diffs = []
+    if mview['outcome'] != iview['outcome']:
+        diffs.append('outcome')
+    if mview['keys'] != iview['keys']:
+        diffs.append('stored keys')
+    completed = mview['outcome'] == [[0, 0], [0, 0]]
+    if completed and mview['calls'] != iview['calls']:
+        diffs.append('user prompts')
+    for k in (0, 1):
+        if mview['sessions'][k] and mview['sessions'][k] != iview['sessions'][k]:
+            diffs.append('negotiated session ' + 'ir'[k])
+    if completed and mview['link'] != iview['link']:
+        diffs.append('link key')
+    if completed:
+        for k, label in ((0, 'same'), (1, 'swapped')):
+            mc, mp = mview['reconnect'][k]
+            ic, ip = iview['reconnect'][k]
+            if mc != ic or (mc != -1 and mp != ip):
+                diffs.append('reconnect ' + label)
+    return diffs or None
+
+
+# ----------------------------------------------------------------------------- the property oracle
+# Core Vol 3 Part H 2.3.5.1 Table 2.8, transcribed independently of the Coq file:
+# SPEC[(initiator io, responder io)] = (legacy, sc); each 'JW' | 'NC' | ('PK', initiator role, responder role)
+_ID = ('PK', 'display', 'input')      # initiator displays, responder inputs
+_RD = ('PK', 'input', 'display')      # responder displays, initiator inputs
+_BI = ('PK', 'input', 'input')
+SPEC = {}
+for _i in range(5):
+    for _r in range(5):
+        SPEC[(_i, _r)] = ('JW', 'JW')
+SPEC[(0, 2)] = (_ID, _ID)
+SPEC[(0, 4)] = (_ID, _ID)
+SPEC[(1, 1)] = ('JW', 'NC')
+SPEC[(1, 2)] = (_ID, _ID)
+SPEC[(1, 4)] = (_ID, 'NC')
+SPEC[(2, 0)] = (_RD, _RD)
+SPEC[(2, 1)] = (_RD, _RD)
+SPEC[(2, 2)] = (_BI, _BI)
+SPEC[(2, 4)] = (_RD, _RD)
+SPEC[(4, 0)] = (_RD, _RD)
+SPEC[(4, 1)] = (_RD, 'NC')
+SPEC[(4, 2)] = (_ID, _ID)
+SPEC[(4, 4)] = (_ID, 'NC')
+
+MUST_FAIL = {'reject', 'wrong_passkey', 'passkey_none', 'compare_no_i', 'compare_no_r', 'confirm_no_i',
+             'confirm_no_r', 'bad_confirm_i', 'bad_confirm_r', 'bad_dhkey_i', 'bad_dhkey_r'}
+
+
+def expected_model(case):
+    """(kind, initiator role, responder role) the specification prescribes for this case."""
+    ci, cr = case['i'], case['r']
+    sc = bool(ci['sc'] and cr['sc'])
+    oob = case.get('oob')
+    if oob in ('sc_both', 'sc_one_i', 'sc_one_r', 'sc_wrong') and sc:
+        return ('OOB', None, None), sc
+    if oob in ('legacy', 'legacy_mismatch') and not sc:
+        return ('OOB', None, None), sc
+    if not (ci['mitm'] or cr['mitm']):
+        return ('JW', None, None), sc
+    e = SPEC[(ci['io'], cr['io'])][1 if sc else 0]
+    if isinstance(e, tuple):
+        return e, sc
+    return (e, None, None), sc
+
+
+def fault_applies(case):
+    """Does the injected fault touch something this run uses?  (From the configuration and the
+    specification only.)"""
+    fault = case.get('fault')
+    if fault is None or fault == 'kd_superset':
+        return False
+    (kind, ri, rr), sc = expected_model(case)
+    fs = case.get('fault_side', 'r')
+    if fault == 'reject':
+        return True
+    if kind == 'OOB':
+        return False
+    if fault in ('wrong_passkey', 'passkey_none'):
+        return kind == 'PK' and {'i': ri, 'r': rr}[fs] == 'input'
+    if fault in ('compare_no_i', 'compare_no_r'):
+        return kind == 'NC'
+    if fault in ('confirm_no_i', 'confirm_no_r'):
+        return kind == 'JW' and sc            # legacy Just Works does not ask
+    if fault == 'bad_confirm_i':
+        return (not sc) or kind == 'PK'       # the SC initiator sends no confirm in JW / NC
+    if fault == 'bad_confirm_r':
+        return True
+    if fault in ('bad_dhkey_i', 'bad_dhkey_r'):
+        return sc
+    return False
+
+
+def any_authenticated(obs):
+    for side in ('i', 'r'):
+        views = [k for _, k in obs['store_' + side]] + obs['event_keys_' + side]
+        for k in views:
+            for v in (k or {}).values():
+                if v[-1] is True:
+                    return True
+    return False
+
+
+def oracle(case, obs):
+    """The property over implementation observables.  Returns a list of (signature, what)."""
+    bad = []
+    ci, cr = case['i'], case['r']
+    tag = f"io{ci['io']}{cr['io']}-sc{ci['sc']}{cr['sc']}-m{ci['mitm']}{cr['mitm']}-b{ci['bonding']}{cr['bonding']}" \
+          f"-kd{ci['ikd']:x}{ci['rkd']:x}{cr['ikd']:x}{cr['rkd']:x}-{case.get('fault')}-{case.get('oob')}"
+    if obs.get('hang') == 'connect':
+        return [('setup:' + tag, 'the two devices did not connect')]
+    ev_i, ev_r = obs['events_i'], obs['events_r']
+    done_i = ev_i[:1] == ['pairing']
+    done_r = ev_r[:1] == ['pairing']
+    # never hangs: pair() returned and each side reported exactly one end
+    if obs['pair_result'] == 'pending' or not ev_i or not ev_r:
+        bad.append(('hang:' + tag, f"pairing hangs: pair() {obs['pair_result']}, initiator events {ev_i}, "
+                                   f"responder events {ev_r} after {obs['steps']} loop steps"))
+        return bad
+    if len(ev_i) != 1 or len(ev_r) != 1:
+        bad.append(('events:' + tag, f'more than one end of pairing reported: {ev_i} / {ev_r}'))
+    # both complete or both fail
+    if done_i != done_r or (obs['pair_result'] == 'ok') != done_i:
+        bad.append(('split:' + tag, f"pairing ends differently: pair() {obs['pair_result']}, initiator {ev_i}, responder {ev_r}"))
+        return bad
+    stored = bool(obs['store_i']) or bool(obs['store_r'])
+    if not done_i:
+        if stored:
+            bad.append(('stored-after-failure:' + tag, f"pairing failed ({ev_i}/{ev_r}) but keys were stored: "
+                                                        f"{obs['store_i']} / {obs['store_r']}"))
+    if fault_applies(case) or case.get('oob') in ('sc_wrong',) or \
+            (case.get('oob') == 'legacy_mismatch' and not (ci['sc'] and cr['sc'])):
+        if done_i or stored:
+            bad.append(('fault-accepted:' + tag, f"{case.get('fault') or case.get('oob')}: pairing completed / keys stored "
+                                                 f"({ev_i}/{ev_r}, {obs['store_i']})"))
+        return bad
+    if not done_i:
+        if case.get('fault') == 'kd_superset':
+            return bad          # the initiator may refuse an answer outside its request
+        bad.append(('failed:' + tag, f'pairing failed without a reason to: {ev_i} / {ev_r}'))
+        return bad
+    # ---- completed on both sides
+    if not (obs['encrypted_i'] and obs['encrypted_r']):
+        bad.append(('not-encrypted:' + tag, 'pairing completed but the link is not encrypted on both sides'))
+    lk = obs['link_keys']
+    if not lk or lk[0][0] is None or lk[0][0] != lk[0][1] or str(lk[0][0]).startswith('other'):
+        bad.append(('link-key:' + tag, f'the central encrypted the link with {lk}: not one shared key'))
+    # the association model of Table 2.8 with complementary roles, seen through the prompts
+    (kind, ri, rr), sc = expected_model(case)
+    calls = {'i': set(obs['calls_i']), 'r': set(obs['calls_r'])}
+    want = {'i': set(), 'r': set()}
+    if kind == 'PK':
+        want['i'].add(ri)
+        want['r'].add(rr)
+    elif kind == 'NC':
+        want['i'].add('compare')
+        want['r'].add('compare')
+    elif kind == 'JW' and sc:
+        want['i'].add('confirm')
+        want['r'].add('confirm')
+    for side in ('i', 'r'):
+        got = calls[side] - {'accept'}
+        if got != want[side]:
+            bad.append(('model:' + tag, f"association model: specification prescribes {kind} ({ri}/{rr}) for "
+                                        f"io {ci['io']}->{cr['io']} sc={sc}; side {side} prompted {sorted(got)}"))
+    # authenticated only with a MITM-protected model
+    if any_authenticated(obs) and kind not in ('PK', 'NC', 'OOB'):
+        bad.append(('authenticated:' + tag, f'keys marked authenticated after {kind}: {obs["store_i"]} / {obs["store_r"]}'))
+    # a later connection: same key, in both role orders; present when negotiated
+    bonded = ci['bonding'] and cr['bonding']
+    for label, kd_bit in (('same', ci['rkd'] & cr['rkd'] & ENC), ('swapped', ci['ikd'] & cr['ikd'] & ENC)):
+        rec = obs['reconnect'].get(label, {})
+        if rec.get('hang') or rec.get('encrypt') == 'hang':
+            bad.append(('reconnect-hang:' + tag, f'reconnection ({label} roles) hangs: {rec}'))
+            continue
+        if rec.get('central_key') is not None:
+            if not rec.get('same'):
+                bad.append((f'reconnect-{label}:' + tag,
+                            f"reconnection in {label} roles: the central's encrypt() uses {rec['central_key']}, "
+                            f"the peripheral's get_long_term_key returns {rec.get('peripheral_key')}"))
+        elif bonded and case.get('fault') is None and (sc or kd_bit) and case.get('oob') is None:
+            bad.append((f'reconnect-nokey-{label}:' + tag,
+                        f'reconnection in {label} roles: bonded, key negotiated, but the central has no key ({rec})'))
+    return bad
+
+
+def ctkd_oracle(case, obs):
+    bad = []
+    tag = f"ctkd-kd{case['kd']}-type{case['key_type']}"
+    if obs.get('setup') != 'ok':
+        return bad
+    if obs['events_i'] != ['pairing'] or obs['events_r'] != ['pairing']:
+        bad.append(('ctkd-incomplete:' + tag, f"CTKD did not complete on both sides: {obs['events_i']} / {obs['events_r']}"))
+        return bad
+    for side in ('i', 'r'):
+        for slot, auth in obs['store_' + side]:
+            if auth and not obs['link_key_authenticated']:
+                bad.append(('ctkd-authenticated:' + tag,
+                            f"CTKD from an unauthenticated link key (type {case['key_type']}) stores {slot} "
+                            f"with authenticated=True on side {side}"))
+    return bad
+
+
+# ----------------------------------------------------------------------------- case generation
+def rand_cfg(rng, io=None, sc=None, mitm=None, bonding=None, full_masks=False):
+    return {'io': rng.below(5) if io is None else io,
+            'sc': rng.below(2) if sc is None else sc,
+            'mitm': rng.below(2) if mitm is None else mitm,
+            'bonding': (0 if rng.chance(1, 5) else 1) if bonding is None else bonding,
+            'ikd': 15 if full_masks else rng.below(16), 'rkd': 15 if full_masks else rng.below(16),
+            'delay': rng.choice([0, 0, 0, 1, 3, 7])}
+
+
+CORPUS = [
+    # D13a: legacy, both sides distribute their LTK
+    {'i': cfg(io=3, sc=0, mitm=0, ikd=15, rkd=15), 'r': cfg(io=3, sc=0, mitm=0, ikd=15, rkd=15)},
+    # D13a (second half): legacy, only the initiator distributes: nothing to use in the same roles
+    {'i': cfg(io=3, sc=0, mitm=0, ikd=1, rkd=0), 'r': cfg(io=3, sc=0, mitm=0, ikd=1, rkd=1)},
+    {'i': cfg(io=4, sc=0, mitm=1, ikd=3, rkd=3), 'r': cfg(io=2, sc=1, mitm=0, ikd=7, rkd=5), 'central': 1},
+    {'i': cfg(io=2, sc=0, mitm=1, ikd=3, rkd=3), 'r': cfg(io=2, sc=0, mitm=1, ikd=3, rkd=3)},
+    {'i': cfg(io=2, sc=1, mitm=1, ikd=3, rkd=3), 'r': cfg(io=2, sc=1, mitm=1, ikd=3, rkd=3),
+     'fault': 'wrong_passkey', 'fault_side': 'i'},
+    # D13c: secure connections passkey entry with the passkey 000000
+    {'i': cfg(io=0, sc=1, mitm=1, ikd=3, rkd=3), 'r': cfg(io=4, sc=1, mitm=0, ikd=3, rkd=3), 'passkey': 0},
+    {'i': cfg(io=2, sc=1, mitm=1, ikd=3, rkd=3), 'r': cfg(io=2, sc=1, mitm=1, ikd=3, rkd=3), 'passkey': 0},
+]
+CORPUS_CTKD = [
+    # D13b: unauthenticated P-192 combination key
+    {'kd': 3, 'key_type': 4},
+]
+
+
+def gen_cases(ctx):
+    rng = ctx.rng
+    cases = [dict(c) for c in CORPUS]
+    import glob
+    import json
+    import os
+    from lib.verif import VERIF
+    for path in sorted(glob.glob(os.path.join(VERIF, 'corpus', 'C13', '*.json'))):
+        with open(path) as f:
+            obj = json.load(f)
+        if obj.get('kind', 'pairing') == 'pairing' and obj['case'] not in cases:
+            cases.append(obj['case'])
+    quick = ctx.quick()
+    # 1. every capability pair x legacy / SC with MITM (the table), masks sampled
+    for i in range(5):
+        for r in range(5):
+            for sc in (0, 1):
+                c = {'i': rand_cfg(rng, io=i, sc=sc, mitm=1), 'r': rand_cfg(rng, io=r, sc=sc, mitm=rng.below(2)),
+                     'central': rng.below(2), 'passkey': rng.below(1000000)}
+                cases.append(c)
+    # 2. asymmetric configurations
+    if quick:
+        for _ in range(50):
+            cases.append({'i': rand_cfg(rng), 'r': rand_cfg(rng), 'central': rng.below(2),
+                          'passkey': rng.choice([0, 1, 999999, rng.below(1000000)])})
+    else:
+        for i in range(5):
+            for r in range(5):
+                for bits in range(64):
+                    sci, scr, mi, mr, bi, br = [(bits >> k) & 1 for k in range(6)]
+                    cases.append({'i': rand_cfg(rng, io=i, sc=sci, mitm=mi, bonding=bi),
+                                  'r': rand_cfg(rng, io=r, sc=scr, mitm=mr, bonding=br),
+                                  'central': rng.below(2), 'passkey': rng.below(1000000)})
+    # 3. masks: every negotiated (initiator, responder) mask pair, legacy and SC (thorough), sampled (quick)
+    pairs = [(a, b) for a in range(16) for b in range(16)]
+    if quick:
+        pairs = rng.shuffle(pairs)[:24]
+    for a, b in pairs:
+        for sc in ((rng.below(2),) if quick else (0, 1)):
+            ci = cfg(io=3, sc=sc, mitm=0, ikd=a | rng.below(16), rkd=b | rng.below(16))
+            cr = cfg(io=3, sc=sc, mitm=0, ikd=a | rng.below(16), rkd=b | rng.below(16))
+            cases.append({'i': ci, 'r': cr, 'central': rng.below(2)})
+    # 4. faults
+    fault_cfgs = [(2, 2), (4, 4), (0, 2), (2, 0), (4, 2), (1, 4), (1, 1), (3, 3), (4, 1)]
+    for fault in FAULTS[1:]:
+        combos = fault_cfgs if not quick else rng.shuffle(fault_cfgs)[:4]
+        for (i, r) in combos:
+            for sc in (0, 1):
+                for fs in (('i', 'r') if fault in ('wrong_passkey', 'passkey_none') else ('r',)):
+                    mitm = 0 if (i, r) == (3, 3) else 1
+                    cases.append({'i': rand_cfg(rng, io=i, sc=sc, mitm=mitm, bonding=1),
+                                  'r': rand_cfg(rng, io=r, sc=sc, mitm=mitm, bonding=1),
+                                  'fault': fault, 'fault_side': fs, 'central': rng.below(2),
+                                  'passkey': rng.below(1000000),
+                                  'passkey_delta': rng.choice([1, 2, 1 << 10, 1 << 19, 999999])})
+    # 5. out of band (exercised against the oracle only)
+    for kind in OOB_KINDS:
+        scs = (1,) if kind.startswith('sc_') else (0, 1)
+        for sc in scs:
+            cases.append({'i': rand_cfg(rng, sc=sc, mitm=1, bonding=1), 'r': rand_cfg(rng, sc=sc, mitm=1, bonding=1),
+                          'oob': kind, 'central': rng.below(2)})
+    return cases
+
+
+def check_pairing_cases(ctx, cases):
+    """Run model and implementation on the cases; report disagreements and violations."""
+    exprs = [model_expr(c) for c in cases]
+    model = ctx.coq_eval(['Model.Pairing'], exprs)
+    for case, m in zip(cases, model):
+        obs = run_pairing(case)
+        modelled, mview = model_view(m)
+        (kind, ri, rr), sc = expected_model(case)
+        ctx.count('pairing.cases')
+        ctx.count('pairing.model.' + kind + ('.sc' if sc else '.legacy'))
+        ctx.count('pairing.fault.' + str(case.get('fault')))
+        if case.get('oob'):
+            ctx.count('pairing.oob.' + case['oob'])
+        done = obs.get('events_i', [])[:1] == ['pairing']
+        ctx.count('pairing.completed' if done else 'pairing.failed')
+        ctx.count('pairing.loop_steps', obs.get('steps', 0))
+        nontrivial = (kind != 'JW') or case.get('fault') is not None or case['i']['ikd'] != 15
+        ctx.case(('pair', _case_key(case)), nontrivial,
+                 {'kind': 'pairing', 'case': case, 'outcome': obs.get('pair_result')} if ctx.evaluations % 97 == 40 else None)
+        if obs.get('hang') != 'connect' and modelled and case.get('oob') is None:
+            diffs = compare_model(case, mview, impl_view(case, obs))
+            if diffs:
+                ctx.disagree('pairing: ' + ', '.join(diffs), case, mview, impl_view(case, obs))
+        elif not modelled:
+            ctx.count('pairing.not_modelled')
+        for sig, what in oracle(case, obs):
+            ctx.violation(sig, what, {'kind': 'pairing', 'case': case})
+
+
+def _case_key(case):
+    import json
+    return json.dumps(case, sort_keys=True)
+
+
+def check_ctkd_cases(ctx, cases):
+    exprs = []
+    for c in cases:
+        auth = c['key_type'] in (5, 8)
+        exprs.append('authenticated_flag (mkEnv true None true true true true 0 None None false false false false '
+                     f'{coq_bool(auth)}) (mkSession true true true false PM_CTKD_OVER_CLASSIC false {c["kd"]} {c["kd"]} [])')
+    model = ctx.coq_eval(['Gen.C13Tables', 'Model.Pairing'], exprs)
+    ran = 0
+    for c, m in zip(cases, model):
+        obs = run_ctkd(c)
+        ctx.count('ctkd.cases')
+        if obs.get('setup') != 'ok':
+            ctx.count('ctkd.setup_failed')
+            continue
+        ran += 1
+        ctx.case(('ctkd', c['kd'], c['key_type']), True, None)
+        flags = sorted(set(a for side in ('i', 'r') for _, a in obs['store_' + side]))
+        if obs['events_i'] == ['pairing'] and flags != [bool(m)]:
+            ctx.disagree('ctkd authenticated flag', c, bool(m), obs)
+        for sig, what in ctkd_oracle(c, obs):
+            ctx.violation(sig, what, {'kind': 'ctkd', 'case': c})
+    ctx.extra['ctkd_runs'] = ran
+
+
+def regen(ctx):
+    from translate.c13_tables import render
+    ctx.write_gen('C13Tables', render())
+
+
+def run(ctx):
+    ctx.rule = ('decide_pairing_method: its whole domain (2 transports x mitm x sc x role x previous display x 64 '
+                'auth_req x 6 x 6 io) on real Session objects. pairing: two real Devices on a LocalLink; every io pair x '
+                'legacy/SC with MITM, asymmetric sc/mitm/bonding/masks (thorough: the full io x io x sc^2 x mitm^2 x '
+                'bonding^2 product and all 16x16 negotiated masks), each fault (reject, wrong / refused passkey, compare '
+                'or confirm refused, altered confirm / DHKey check, answer outside the request), OOB kinds; then '
+                'reconnection in the same and swapped roles. A case is non-trivial unless it is plain Just Works with '
+                'full masks and no fault; distinct by content.')
+    ctx.assumptions += [
+        'cryptography is abstract in the theorems: only toolbox_ok (decidable equality, c1 collision-free in TK, '
+        'distinct passkeys give distinct TKs, f4 collision-free in its last argument, ECDH agreement, an altered value '
+        'differs) - collision resistance idealised as injectivity',
+        'phase 2 is modelled as the sequential exchange the FIFO L2CAP channel forces; "never hangs" is a theorem for '
+        'the key distribution phase and for the modelled exchange, and an oracle check (loop-step budget) for the '
+        'real asyncio sessions',
+        'OOB pairing and CTKD flows are exercised against the oracle, not modelled (CTKD: only the authenticated flag)',
+        'the identity address is the static random address (PairingConfig.AddressType.RANDOM), so that the key store '
+        'entry is found again on reconnection over the virtual link',
+    ]
+    ctx.trusted += ['Model/Pairing.v is a hand-written reading of smp.Session / device.py key reads, tied to the code by '
+                    'differential execution; Session.PAIRING_METHODS and the enum constants are regenerated',
+                    'spec_method in Model/Pairing.v and SPEC in the harness are two independent hand transcriptions of '
+                    'Core Vol 3 Part H Table 2.8']
+    decide_correspondence(ctx)
+    cases = gen_cases(ctx)
+    check_pairing_cases(ctx, cases)
+    ctkd = list(CORPUS_CTKD)
+    for kd in (3, 7):
+        for kt in ((4, 5) if ctx.quick() else (4, 5, 7, 8)):
+            if {'kd': kd, 'key_type': kt} not in ctkd:
+                ctkd.append({'kd': kd, 'key_type': kt})
+    import glob
+    import json
+    import os
+    from lib.verif import VERIF
+    for path in sorted(glob.glob(os.path.join(VERIF, 'corpus', 'C13', '*.json'))):
+        with open(path) as f:
+            obj = json.load(f)
+        if obj.get('kind') == 'ctkd' and obj['case'] not in ctkd:
+            ctkd.append(obj['case'])
+    check_ctkd_cases(ctx, ctkd)
+
+
+def search(ctx):
+    """Directed search after a broken proof / correspondence: the whole table with MITM on both
+    sides, legacy and SC, full masks, both orders, plus every fault on a passkey configuration."""
+    for i in range(5):
+        for r in range(5):
+            for sc in (0, 1):
+                for bits in range(4):
+                    case = {'i': cfg(io=i, sc=sc, mitm=bits & 1, ikd=15, rkd=15),
+                            'r': cfg(io=r, sc=sc, mitm=(bits >> 1) & 1, ikd=15, rkd=15)}
+                    obs = run_pairing(case)
+                    for sig, what in oracle(case, obs):
+                        ctx.violation('search:' + sig, what, {'kind': 'pairing', 'case': case})
+                    if ctx.violations:
+                        return
+    for fault in FAULTS[1:]:
+        for sc in (0, 1):
+            for io in ((2, 2), (4, 4), (0, 2), (3, 3)):
+                case = {'i': cfg(io=io[0], sc=sc, mitm=1, ikd=7, rkd=7), 'r': cfg(io=io[1], sc=sc, mitm=1, ikd=7, rkd=7),
+                        'fault': fault, 'fault_side': 'r'}
+                obs = run_pairing(case)
+                for sig, what in oracle(case, obs):
+                    ctx.violation('search:' + sig, what, {'kind': 'pairing', 'case': case})
+                if ctx.violations:
+                    return
+    for a in range(16):
+        for b in range(16):
+            case = {'i': cfg(io=3, sc=0, mitm=0, ikd=a, rkd=b), 'r': cfg(io=3, sc=0, mitm=0, ikd=a, rkd=b)}
+            obs = run_pairing(case)
+            for sig, what in oracle(case, obs):
+                ctx.violation('search:' + sig, what, {'kind': 'pairing', 'case': case})
+            if ctx.violations:
+                return
+
+
+def replay(ctx, obj):
+    import json
+    r = obj['replay']
+    if r['kind'] == 'ctkd':
+        obs = run_ctkd(r['case'])
+        print(json.dumps(obs, indent=1, default=repr))
+        bad = ctkd_oracle(r['case'], obs)
+    else:
+        obs = run_pairing(r['case'])
+        print(json.dumps({k: obs[k] for k in obs if k not in ('event_keys_i', 'event_keys_r')}, indent=1, default=repr))
+        bad = oracle(r['case'], obs)
+    print('oracle:', '; '.join(w for _, w in bad) if bad else 'holds')
+    return 0
